@@ -10,6 +10,7 @@
 //	S v ; r        V n ; r                            calcSizeFromValue / calcValueFromSize
 //	E op* ; (ok:size:max)*                            enum history (A:name:idx R:name M:min U:name:idx C K G:j:idx O:j:idx)
 //	X count gsize ; sel size                          multiplexer selector / total size
+//	Y tok* ; (sizeA:maxA:sizeB:maxB)*                  two enums sharing value objects (a:e:v:idx s:e:v u:v:idx)
 package main
 
 import (
@@ -797,6 +798,77 @@ func genEnumHistories(rc *recorder, r *rng, n int) {
 	}
 }
 
+// sharedRun: two enums and value objects that may be added to both (SignalEnum.AddValue has no
+// parent check: the D20 family for enum values).  Tokens: a:e:v:idx new value v into enum e,
+// s:e:v the existing value object v into enum e as well, u:v:idx v.UpdateIndex(idx).
+// Observed after every token: GetSize:MaxIndex of both enums (model: coq/C03/Shared.v).
+func sharedCase(rc *recorder, toks []string) {
+	en := [2]*acmelib.SignalEnum{acmelib.NewSignalEnum("a"), acmelib.NewSignalEnum("b")}
+	vals := map[int]*acmelib.SignalEnumValue{}
+	obs := []string{}
+	bad, badSig := "", ""
+	for i, tok := range toks {
+		q := strings.Split(tok, ":")
+		at := func(j int) int { v, _ := strconv.Atoi(q[j]); return v }
+		switch q[0] {
+		case "a":
+			if _, have := vals[at(2)]; !have {
+				v := acmelib.NewSignalEnumValue(fmt.Sprintf("Val_%d", at(2)), at(3))
+				vals[at(2)] = v
+				_ = en[at(1)%2].AddValue(v)
+			}
+		case "s":
+			if v, have := vals[at(2)]; have {
+				_ = en[at(1)%2].AddValue(v)
+			}
+		case "u":
+			if v, have := vals[at(1)]; have {
+				_ = v.UpdateIndex(at(2))
+			}
+		}
+		obs = append(obs, fmt.Sprintf("%d:%d:%d:%d", en[0].GetSize(), en[0].MaxIndex(), en[1].GetSize(), en[1].MaxIndex()))
+		for k, e := range en {
+			if msg := enumConsistent(e); msg != "" && bad == "" {
+				// known shape (decided by value): the enum holds a value object whose ParentEnum is another enum
+				foreign := false
+				for _, v := range e.Values() {
+					if v.ParentEnum() != e {
+						foreign = true
+					}
+				}
+				badSig = "c03-enum-size"
+				if foreign {
+					badSig = "c03-enum-size-value-in-two-enums"
+				}
+				bad = fmt.Sprintf("after %s: enum %d: %s", strings.Join(toks[:i+1], " "), k, msg)
+			}
+		}
+	}
+	line := rc.emit("enum-shared-values", true, "Y "+strings.Join(toks, " "), strings.Join(obs, " "))
+	if bad != "" {
+		rc.fail(badSig, uint64(len(toks)), line, bad)
+	}
+}
+
+func genShared(rc *recorder, r *rng, n int) {
+	for c := 0; c < n; c++ {
+		toks := []string{}
+		nv := 0
+		for i, m := 0, 2+r.below(7); i < m; i++ {
+			switch k := r.below(10); {
+			case k < 4 || nv == 0:
+				toks = append(toks, fmt.Sprintf("a:%d:%d:%d", r.below(2), nv, []int{0, 1, 2, 3, 5, 7, 8, 200, 1000, 70000}[r.below(10)]))
+				nv++
+			case k < 6:
+				toks = append(toks, fmt.Sprintf("s:%d:%d", r.below(2), r.below(nv)))
+			default:
+				toks = append(toks, fmt.Sprintf("u:%d:%d", r.below(nv), []int{0, 1, 2, 4, 9, 100, 1000, 65536, 3}[r.below(9)]))
+			}
+		}
+		sharedCase(rc, toks)
+	}
+}
+
 func genEnumDecode(rc *recorder, r *rng, n int) {
 	for c := 0; c < n; c++ {
 		e := acmelib.NewSignalEnum("e")
@@ -1107,6 +1179,8 @@ func replay(rc *recorder, line string) {
 		muxCase(rc, atoi(f[1]), atoi(f[2]))
 	case "I":
 		isDecimalCase(rc, math.Float64frombits(atou(f[1])))
+	case "Y":
+		sharedCase(rc, f[1:])
 	case "E":
 		er := newEnumRun()
 		for _, tok := range f[1:] {
@@ -1151,6 +1225,7 @@ func main() {
 		genIsDecimal(rc, r)
 		genMux(rc, r, thorough)
 		genEnumHistories(rc, r, map[bool]int{false: 3000, true: 100000}[thorough])
+		genShared(rc, r, map[bool]int{false: 1500, true: 40000}[thorough])
 		genEnumDecode(rc, r, map[bool]int{false: 1500, true: 40000}[thorough])
 		genDecode(rc, r, thorough)
 	}
